@@ -40,7 +40,7 @@ class Check:
         self.inconclusive = []        # descriptions
         self.known = {k["key"]: k for k in load_known() if k.get("property") == self.pid and k.get("status") == "known"}
         self._seen_keys = {}
-        self.max_reports = 25
+        self.max_reports = int(os.environ.get("VERIF_MAXREP", "25"))
         self.counters = {}
 
     # -- verdicts -----------------------------------------------------------
@@ -156,15 +156,14 @@ def leak_keys(stderr):
     """One key per leaked allocation stack in an LSan report."""
     import re
     keys = []
-    for block in re.split(r"\n(?=(?:Direct|Indirect) leak of)", stderr):
-        if not block.startswith(("Direct leak", "Indirect leak")):
-            continue
-        if block.startswith("Indirect"):
-            continue
+    blocks = [b for b in re.split(r"\n(?=(?:Direct|Indirect) leak of)", stderr) if b.startswith(("Direct leak", "Indirect leak"))]
+    if any(b.startswith("Direct") for b in blocks):
+        blocks = [b for b in blocks if b.startswith("Direct")]
+    for block in blocks:
         frames = []
         for m in re.finditer(r"#\d+ 0x[0-9a-f]+ in (\S+) (\S+)", block):
             fn, loc = m.group(1), m.group(2)
-            if "/repo/" in loc:
+            if ("/repo/" in loc or loc.startswith("libyara/")) and fn not in ("yr_malloc", "yr_calloc", "yr_realloc", "yr_strdup", "yr_strndup"):
                 frames.append(fn)
             if len(frames) >= 3:
                 break
